@@ -389,6 +389,33 @@ class PrangeCtx:
         g = self.pred(e, sub, nm, fp, self.iv, rel)
         e.oblige(sub, 'prange_write', g, node, label=f'loop{self.k}: slice store {norm_src(node)} inside own footprint of {nm}')
 
+    def check_callee_frame(self, e, st, a, fr, env, old_heap, node, q):
+        """every cell a contracted callee may write (its frame predicate inside the passed view) lies in the
+        calling iteration's own footprint"""
+        if a.base not in self.entry_bases:
+            return
+        ent = self.bases.get(a.base)
+        if ent is None:
+            e.oblige(st, 'prange_write', z3.BoolVal(False), node,
+                     label=f'loop{self.k}: callee {q} writes a shared array without declared footprint')
+            return
+        nm, a0, fp = ent
+        if fp is None:
+            return
+        qs = [fresh('w', z3.IntSort()) for _ in a.raxes]
+        inside = [z3.And(x >= 0, x < ln) for x, ln in zip(qs, a.shape)]
+        sub = St(st.env, st.heap, list(st.pc))
+        sub.pc.extend(inside)
+        if fr is not None:
+            ivars, pred = fr
+            penv = dict(env)
+            for vn, x in zip([v.strip() for v in ivars.split(',')], qs):
+                penv[vn] = SV(x, 'int')
+            sub.pc.append(e.spec_bool(pred, St(penv, old_heap, sub.pc)))
+        rel = self.view_rel_index(a, a0, qs)
+        g = self.pred(e, sub, nm, fp, self.iv, rel)
+        e.oblige(sub, 'prange_write', g, node, label=f'loop{self.k}: cells written by {q} inside own footprint of {nm}')
+
     def thread_id(self, e, st):
         if self.tid is None:
             self.tid = fresh('tid', z3.IntSort())
